@@ -4,7 +4,7 @@
 
 use std::net::TcpStream;
 #[cfg(unix)]
-use std::os::unix::io::{AsRawFd, IntoRawFd};
+use std::os::unix::io::AsRawFd;
 #[cfg(unix)]
 use std::os::unix::net::{UnixListener, UnixStream};
 use std::process::Child;
@@ -138,14 +138,14 @@ pub fn varlink_bridge<S: ?Sized + AsRef<str>>(address: &S) -> Result<(Child, Box
 
 #[cfg(unix)]
 pub fn varlink_bridge<S: ?Sized + AsRef<str>>(address: &S) -> Result<(Child, Box<dyn Stream>)> {
-    use std::os::unix::io::FromRawFd;
+    use std::os::unix::io::OwnedFd;
     use std::process::Command;
 
     let executable = address.as_ref();
     let (stream0, stream1) = UnixStream::pair().map_err(map_context!())?;
-    let fd = stream1.into_raw_fd();
-    let childin = unsafe { ::std::fs::File::from_raw_fd(fd) };
-    let childout = unsafe { ::std::fs::File::from_raw_fd(fd) };
+    // two owned descriptors: stdin and stdout of the child are closed independently
+    let childin: OwnedFd = stream1.try_clone().map_err(map_context!())?.into();
+    let childout: OwnedFd = stream1.into();
 
     let child = Command::new("sh")
         .arg("-c")
